@@ -498,6 +498,11 @@ Fixpoint fd_until_semi (l : list str) : list str * list str :=
   | [] => ([], [])
   | w :: r => if str_eqb w (S ";") then ([], r) else let '(a, b) := fd_until_semi r in (w :: a, b)
   end.
+(* fd --help, --exec: "If no placeholder is present, an implicit "{}" at the end is assumed"; the placeholders are
+   {} {/} {//} {.} {/.} and may stand inside a word; the appended/substituted path is left as the word {} *)
+Definition FD_PLACEHOLDERS_SPEC : list str := map s2l ["{.}"; "{/.}"; "{//}"; "{/}"; "{}"].
+Definition fd_path (c : list str) : list str :=
+  if existsb (fun w => existsb (fun p => infixb p w) FD_PLACEHOLDERS_SPEC) c then c else c ++ [S "{}"].
 Inductive fdc := FDErr | FDPlain | FDNeed | FDExec (attached : str).
 Fixpoint fd_cluster (cs : str) : fdc :=
   match cs with
@@ -516,7 +521,7 @@ Fixpoint fd_run (fuel : nat) (l : list str) : option (list (list str)) :=
         let '(cmd, rest) := fd_until_semi r in
         match first ++ cmd with
         | [] => None
-        | c => match fd_run f rest with Some cs => Some (c :: cs) | None => None end
+        | c => match fd_run f rest with Some cs => Some (fd_path c :: cs) | None => None end
         end in
       match l with
       | [] => Some []
